@@ -34,7 +34,8 @@ pub struct W2 {
     b: Side,
 }
 
-const KEYS: &[&str] = &["$$token", "$$user_x", "$$permission_$x", "$$secret", "$secret", "secret", "*", "$$*", "*$$"];
+// (the last two are lists: a `$$` name hidden behind a separator after a plain name, and before it)
+const KEYS: &[&str] = &["$$token", "$$user_x", "$$permission_$x", "$$secret", "$secret", "secret", "*", "$$*", "*$$", "secret,$$secret", "$$secret,secret", "secret|$$secret"];
 
 fn secure_view(node: &Node) -> BTreeMap<String, (String, i32)> {
     with_db(&node.dbs, "t", |db| {
@@ -127,7 +128,7 @@ impl C08 {
         letters.push(ADMIN_TOUCH_PLAIN.to_string());
         let session_letters = [
             "use-db t tok", "use-db t bob bt", "use-db t wrong", "use-db t x wrong", "auth u wrong", "arbiter", "unwatch-all",
-            "watch $$token", "watch $$secret", "watch secret", "watch $secret", "watch *", "watch $$*",
+            "watch $$token", "watch $$secret", "watch secret", "watch $secret", "watch *", "watch $$*", "watch secret,$$secret", "watch secret|$$secret",
             "unwatch $$secret", "unwatch secret", "set secret v", "set $secret v", "remove secret", "increment secret",
             "set-safe secret 7 v", ADMIN_TOUCH_SECRET, ADMIN_TOUCH_PLAIN,
         ];
